@@ -117,7 +117,10 @@ def histories(ctx, model_ok, tmp, mode):
                 ids = list(range(nid + 1, nid + 1 + k))
                 nid += k
                 run = rng.choice(runs)
-                srcf = os.path.join(ext, f"direct{ids[0]}.yaml")
+                # the file the absolute URI points at lives outside the root, or — still not owned — in a directory below it
+                where = ext if rng.random() < 0.5 else os.path.join(root, "archive")
+                os.makedirs(where, exist_ok=True)
+                srcf = os.path.join(where, f"direct{ids[0]}.yaml")
                 with open(srcf, "w") as fh:
                     fh.write(f"n: {ids[0]}\n")
                 rr = [DatasetRef(dt, {"instrument": "I", "detector": i}, run=run) for i in ids]
@@ -188,7 +191,7 @@ def histories(ctx, model_ok, tmp, mode):
             ctx.count(ops[-1].split()[0])
 
             # ------------------------------------------------ observation
-            files = {k: v for k, v in _listing(root).items() if "sqlite" not in k and k != "butler.yaml"}
+            files = {k: v for k, v in _listing(root).items() if "sqlite" not in k and k != "butler.yaml" and not k.startswith("archive/")}
             unknown = [f for f in files if f not in pathno]
             disk = {pathno[f] for f in files if f in pathno}
             req.append("art state")
@@ -270,7 +273,7 @@ def histories(ctx, model_ok, tmp, mode):
         # leave nothing behind for the next history
         b.removeRuns(runs, unstore=True)
         b._datastore.emptyTrash()
-        left = [k for k in _listing(root) if "sqlite" not in k and k != "butler.yaml"]
+        left = [k for k in _listing(root) if "sqlite" not in k and k != "butler.yaml" and not k.startswith("archive/")]
         if left and not any(v.key.startswith("art:") for v in ctx.violations):
             viol(f"after removing both runs of history {ops[-6:]} the root still holds {left[:4]}", f"art-left:{ops}",
                  {"kind": "art-history", "ops": ops + ["removeRuns both"], "left": left})
